@@ -1387,6 +1387,14 @@ class Interp:
             return self.unknown("compare-" + type(op).__name__, node)
         if isinstance(a, StrV) and isinstance(b, StrV):
             return Sc(sym.Bool((a.s == b.s) == (name == "==")))
+        if isinstance(a, Seq) and isinstance(b, Seq) and name in ("==", "!=") and all(isinstance(x, Sc) for x in a.items + b.items):
+            if len(a.items) != len(b.items):
+                return Sc(sym.Bool(name == "!="))
+            eq = sym.And(*[sym.Cmp("==", x.e, y.e) for x, y in zip(a.items, b.items)])
+            d = self.decide(eq)
+            if d is not None:
+                eq = sym.Bool(d)
+            return Sc(eq if name == "==" else sym.Not(eq))
         if isinstance(a, FuncV) and isinstance(b, FuncV) and name in ("==", "!="):
             return Sc(sym.Bool((a.target == b.target) == (name == "==")))
         if isinstance(a, NoneV) or isinstance(b, NoneV):
